@@ -49,12 +49,12 @@ fn forward_scan(na: usize, nb: usize, nc: usize) {
     assert!(!cur.valid(), "role=cursor_exhausted_after_last_entry");
 }
 
-// @vt prop=C28 tier=quick feat=sp fs=600 bound="forward scan (cursor_first + advance) over a 3-leaf chain under an interior root with an EMPTY middle leaf: cell counts (2,0,1) and (0,0,2), arbitrary value bytes" outside="deeper trees; more than 2 cells per leaf; symbolic keys (cursors do not compare keys)" timeout=1200 mem=16
+// @vt prop=C28 tier=quick feat=sp fs=600 bound="forward scan (cursor_first + advance) over a 3-leaf chain under an interior root with an EMPTY middle leaf: cell counts (2,0,1) and (0,0,2), arbitrary value bytes" outside="deeper trees; more than 2 cells per leaf; symbolic keys (cursors do not compare keys)" timeout=1800 mem=16
 vt_proof_pg! { unwind = 5; fn c28_cursor_scan_empty_middle_leaf() {
     if kani::any() { forward_scan(2, 0, 1) } else { forward_scan(0, 0, 2) }
     kani::cover!(true, "w:reached_end");
 }}
-// @vt prop=C28 tier=quick feat=sp fs=600 bound="forward scan over a 3-leaf chain with an EMPTY first leaf / no empty leaf: cell counts (0,1,1) and (1,1,2), arbitrary value bytes" outside="deeper trees; more than 2 cells per leaf" timeout=1200 mem=16
+// @vt prop=C28 tier=quick feat=sp fs=600 bound="forward scan over a 3-leaf chain with an EMPTY first leaf / no empty leaf: cell counts (0,1,1) and (1,1,2), arbitrary value bytes" outside="deeper trees; more than 2 cells per leaf" timeout=1800 mem=16
 vt_proof_pg! { unwind = 5; fn c28_cursor_scan_empty_first_leaf() {
     if kani::any() { forward_scan(0, 1, 1) } else { forward_scan(1, 1, 2) }
     kani::cover!(true, "w:reached_end");
@@ -70,7 +70,7 @@ vt_proof_pg! { unwind = 5; fn c28_cursor_forward_scan_all_shapes() {
     else { if nb == 0 { if nc == 1 { forward_scan(2, 0, 1) } else { forward_scan(2, 0, 2) } } else { if nc == 1 { forward_scan(2, 1, 1) } else { forward_scan(2, 1, 2) } } }
 }}
 
-// @vt prop=C29 tier=quick feat=sp bound="InteriorNode::find_child on ANY valid interior page with 3 separators of lengths (2, 5, 3) and arbitrary bytes (strictly increasing), every probe key of 0..=5 bytes: the child is the one of the first separator greater than the key, else the right child" outside="other separator shapes; more separators" timeout=1200 mem=16
+// @vt prop=C29 tier=quick feat=sp bound="InteriorNode::find_child on ANY valid interior page with 3 separators of lengths (2, 5, 3) and arbitrary bytes (strictly increasing), every probe key of 0..=5 bytes: the child is the one of the first separator greater than the key, else the right child" outside="other separator shapes; more separators" timeout=1800 mem=16
 vt_proof_pg! { unwind = 8; fn c29_interior_find_child() {
     let mut page = [0u8; PAGE_SIZE];
     let seps = [Ent::any(2, 0), Ent::any(5, 0), Ent::any(3, 0)];
@@ -91,3 +91,54 @@ vt_proof_pg! { unwind = 8; fn c29_interior_find_child() {
 pub fn replay_forward_scan_2_0_1() { forward_scan(2, 0, 1) }
 #[cfg(kani)]
 pub fn replay_forward_scan_0_1_1() { forward_scan(0, 1, 1) }
+
+/// BTree::insert through a (possibly stale or bogus) right-most-leaf hint must behave like an insert without hint:
+/// afterwards `get` finds the key and a forward scan yields all entries in key order.
+fn insert_with_hint(hint: Option<u32>, kb: u8) {
+    let mut st = MemStore::<6> { pages: [[0u8; PAGE_SIZE]; 6] };
+    let vals: [u8; 6] = kani::any();
+    {
+        let mut seps = [Ent::ZERO; 2];
+        seps[0].kl = 2; seps[0].k[0] = 0x20; seps[1].kl = 2; seps[1].k[0] = 0x30;
+        pg::put_interior(&mut st.pages[1], &seps, &[2, 3], 2, 4);
+        pg::put_leaf(&mut st.pages[2], &[tagged(0x10, vals[0]), tagged(0x11, vals[1])], 2, PAGE_SIZE, 0, 3, 0);
+        pg::put_leaf(&mut st.pages[3], &[tagged(0x20, vals[2]), tagged(0x21, vals[3])], 2, PAGE_SIZE, 0, 4, 0);
+        pg::put_leaf(&mut st.pages[4], &[tagged(0x30, vals[4]), tagged(0x31, vals[5])], 2, PAGE_SIZE, 0, 0, 0);
+    }
+    let key = [kb, 1u8];
+    let v: [u8; 1] = kani::any();
+    let mut tree = match BTree::with_rightmost_hint(&mut st, 1, hint) { Ok(t) => t, Err(_) => { assert!(false, "role=tree_opens"); return; } };
+    let r = core::mem::ManuallyDrop::new(tree.insert(&key, &v));
+    assert!(r.is_ok(), "role=insert_ok");
+    let g = core::mem::ManuallyDrop::new(tree.get(&key));
+    match &*g { Ok(Some(x)) => assert!(x.len() == 1 && x[0] == v[0], "role=c28_inserted_key_is_found_by_get"), _ => assert!(false, "role=c28_inserted_key_is_found_by_get") }
+    // forward scan: 7 entries, strictly increasing first key bytes
+    let cur = core::mem::ManuallyDrop::new(tree.cursor_first());
+    let mut cur = match &*cur { Ok(_) => core::mem::ManuallyDrop::into_inner(cur).unwrap(), Err(_) => { assert!(false, "role=cursor_first_ok"); return; } };
+    let mut seen = 0usize; let mut last: i32 = -1; let mut sorted = true;
+    macro_rules! step { () => { if cur.valid() {
+        let k = core::mem::ManuallyDrop::new(cur.key());
+        if let Ok(k) = &*k { if (k[0] as i32) <= last { sorted = false; } last = k[0] as i32; seen += 1; }
+        let adv = core::mem::ManuallyDrop::new(cur.advance()); assert!(adv.is_ok(), "role=cursor_advance_ok");
+    } }; }
+    step!(); step!(); step!(); step!(); step!(); step!(); step!(); step!();
+    assert!(seen == 7, "role=c28_scan_sees_every_entry_after_hinted_insert");
+    assert!(sorted, "role=c28_scan_is_in_key_order_after_hinted_insert");
+}
+
+// @vt prop=C28,C29 tier=quick feat=sp fs=600 bound="BTree::insert with a STALE right-most-leaf hint (page 2, a leaf with right siblings) into a 3-leaf tree under an interior root; new key [0x25,1] or [0x35,1] (concrete; they belong to the 2nd / 3rd leaf), value byte and existing values arbitrary" outside="symbolic keys on this path (routing through the interior page would make the page number symbolic); splits" timeout=1800 mem=16
+vt_proof_pg! { unwind = 6; fn c28_insert_with_stale_hint() {
+    if kani::any() { insert_with_hint(Some(2), 0x25) } else { insert_with_hint(Some(2), 0x35) }
+    kani::cover!(true, "w:reached_end");
+}}
+// @vt prop=C28,C29 tier=thorough feat=sp fs=600 bound="BTree::insert with the correct hint (page 4), a stale hint to the middle leaf (page 3), and no hint; new key [0x35,1] / [0x25,1]" outside="symbolic keys; splits" timeout=1800 mem=16
+vt_proof_pg! { unwind = 6; fn c28_insert_with_other_hints() {
+    let h: u8 = kani::any(); kani::assume(h < 3);
+    if h == 0 { insert_with_hint(Some(4), 0x35) } else if h == 1 { insert_with_hint(Some(3), 0x35) } else { insert_with_hint(None, 0x25) }
+    kani::cover!(true, "w:reached_end");
+}}
+// @vt prop=C28,C29 tier=thorough feat=sp fs=600 bound="BTree::insert with a hint that is not a leaf (page 1) or out of range (page 9); new key [0x15,1]" outside="symbolic keys; splits" timeout=1800 mem=16
+vt_proof_pg! { unwind = 6; fn c28_insert_with_bogus_hints() {
+    if kani::any() { insert_with_hint(Some(1), 0x15) } else { insert_with_hint(Some(9), 0x15) }
+    kani::cover!(true, "w:reached_end");
+}}
